@@ -24,7 +24,7 @@ import (
 
 // Node is a filesystem node (also the replay form).
 type Node struct {
-	K string           `json:"k"`           // dir file link other
+	K string           `json:"k"`           // dir file link other bad (bad: a file whose on-disk name is the key followed by the byte 0xff, i.e. not valid UTF-8)
 	D string           `json:"d,omitempty"` // file content / link target
 	C map[string]*Node `json:"c,omitempty"` // children
 }
@@ -50,7 +50,11 @@ func Random(r *rand.Rand, depth, width int, names []string) *Node {
 		case x < 8:
 			n.C[name] = &Node{K: "file", D: fmt.Sprintf("content-%d", r.Intn(1000))}
 		case x < 9:
-			n.C[name] = &Node{K: "link", D: "target"}
+			if r.Intn(3) == 0 {
+				n.C[name] = &Node{K: "bad"}
+			} else {
+				n.C[name] = &Node{K: "link", D: "target"}
+			}
 		default:
 			if depth > 1 && r.Intn(2) == 0 {
 				n.C[name] = &Node{K: "dir", C: map[string]*Node{}}
@@ -70,6 +74,19 @@ func (n *Node) SortedNames() []string {
 	}
 	sort.Strings(names)
 	return names
+}
+
+// BadSuffix is appended to the key of a "bad" node to form its on-disk name.
+const BadSuffix = "\xff"
+
+// SnapshotName is the name under which core.Scan lists the child: the key
+// itself, or for a "bad" node the escaped form of its non-UTF-8 name
+// (strings.ToValidUTF8(name, U+FFFD) + " (non-UTF-8)").
+func (n *Node) SnapshotName(key string) string {
+	if n.C[key].K == "bad" {
+		return strings.ToValidUTF8(key+BadSuffix, "\uFFFD") + " (non-UTF-8)"
+	}
+	return key
 }
 
 // Digest is the digest core.Scan computes for a file with this content
@@ -104,16 +121,23 @@ func HexDigests(e *core.Entry) *core.Entry {
 func (n *Node) Coq() string {
 	switch n.K {
 	case "dir":
-		names := n.SortedNames()
-		items := make([]string, len(names))
-		for i, name := range names {
-			items[i] = "(" + coretree.Str(name) + ", " + n.C[name].Coq() + ")"
+		type kv struct{ name, term string }
+		var kvs []kv
+		for _, key := range n.SortedNames() {
+			kvs = append(kvs, kv{n.SnapshotName(key), n.C[key].Coq()})
+		}
+		sort.Slice(kvs, func(i, j int) bool { return kvs[i].name < kvs[j].name })
+		items := make([]string, len(kvs))
+		for i, x := range kvs {
+			items[i] = "(" + coretree.Str(x.name) + ", " + x.term + ")"
 		}
 		return "FDir [" + strings.Join(items, "; ") + "]"
 	case "file":
 		return "FFile " + coretree.Str(Digest(n.D))
 	case "link":
 		return "FLink " + coretree.Str(n.D)
+	case "bad":
+		return "FBadName"
 	default:
 		return "FOther"
 	}
@@ -125,6 +149,9 @@ func (n *Node) Paths() (paths []string, nodes []*Node) {
 	var walk func(prefix string, x *Node)
 	walk = func(prefix string, x *Node) {
 		for _, name := range x.SortedNames() {
+			if x.C[name].K == "bad" {
+				continue // never offered to an ignorer
+			}
 			p := name
 			if prefix != "" {
 				p = prefix + "/" + name
@@ -167,6 +194,8 @@ func (n *Node) Materialize() (string, error) {
 				err = os.WriteFile(p, []byte(ch.D), 0o644)
 			case "link":
 				err = os.Symlink(ch.D, p)
+			case "bad":
+				err = os.WriteFile(p+BadSuffix, []byte("x"), 0o644)
 			default:
 				err = syscall.Mkfifo(p, 0o644)
 			}
